@@ -27,7 +27,7 @@ MAPPABLE = ('S1', 'S2', 'S3', 'S4')
 RESCOUNT = ('S5', 'S6') if os.environ.get('C05_RESCOUNT') == '1' else ()
 ALL = LETTERS + ('S5', 'S6')
 SCALES = (0.5, 1.0)
-BOXES = ('rect', 'tric', 'hex')
+BOXES = ('rect', 'tric', 'hex', 'gen')
 TOL_FMT = 0.5e-3 + 1e-9          # coordinate format: 3 decimals
 TOL_INV = 0.9e-3                 # a length built from three rounded components
 TOL_BOX = 5e-6
@@ -59,14 +59,17 @@ SPECIES = {
 # workflow histories on ONE Manager (system S1 S2 W S1 U): attach through add_end_molecule, attach / detach through
 # the documented molecule_correspondence[name].end attribute, compute maps, extrapolate
 HIST_SEQ = ['S1', 'S2', 'W', 'S1', 'U']
-HIST_EVENTS = ('extr', 'calc', 'add:S1', 'add:S2', 'set:S1', 'set:S2', 'det:S1', 'det:S2')
+HIST_EVENTS = ('extr', 'calc', 'add:S1', 'add:S2', 'set:S1', 'set:S2', 'det:S1', 'det:S2', 'frame')
 END_RESID_OFFSET = 76             # residue numbers carried by the end-resolution files
 
 BOX = {'rect': np.array([7.25, 6.5, 8.125]),
        'tric': np.array([[7.25, 0.0, 0.0], [1.5, 6.5, 0.0], [0.75, 2.125, 8.125]]),
        # hexagonal cell (gamma = 120 deg): its only off-diagonal component is NEGATIVE; this class also
        # carries a title with multi-byte characters (when the default text encoding can hold them)
-       'hex': np.array([[6.0, 0.0, 0.0], [-3.0, 5.19615, 0.0], [0.0, 0.0, 8.125]])}
+       'hex': np.array([[6.0, 0.0, 0.0], [-3.0, 5.19615, 0.0], [0.0, 0.0, 8.125]]),
+       # lattice vectors in a general orientation (all nine numbers of the box line non-zero, v1(y), v1(z), v2(z) too):
+       # read by the library's parser like any other nine-number line, so it is copied like any other
+       'gen': np.array([[3.8, 1.2, 0.3], [0.5, 3.9, 0.4], [-0.25, 0.75, 4.3]])}
 import locale
 _UTF = 'utf' in locale.getpreferredencoding(False).lower()
 
@@ -117,10 +120,10 @@ def r3(a):
 class World:
     """Ground truth of one system: per molecule its species, residue numbers, positions."""
 
-    def __init__(self, seq, box, seed):
+    def __init__(self, seq, box, seed, frame=0):
         self.seq = list(seq)
         self.boxkind = box
-        self.title = f'mcx C05 {"-".join(seq)} {box} ; t= 12.5'
+        self.title = f'mcx C05 {"-".join(seq)} {box} ; t= {12.5 + 500 * frame}'
         if box == 'tric':                 # leading, inner and trailing blanks belong to the title
             self.title = f'   frame    12   ({"-".join(seq)}: run, replica)  '
         if box == 'hex' and _UTF:
@@ -128,14 +131,14 @@ class World:
         rots = generic_rotations(seed, k=5)
         self.mols = []
         recs = []
-        resid = 10
+        resid = 10 + 30 * frame           # another frame: other residue numbers, coordinates, title (and box)
         atomid = 0
         for k, sp in enumerate(self.seq):
             atoms = SPECIES[sp][0]
             base = generic_points(len(atoms), seed, tag=100 + ALL.index(sp)) * 0.45
             rng = np.random.default_rng([int(seed), k, 17])      # generic coordinate table only
             pos = base @ rots[k % len(rots)].T + rng.uniform(-0.02, 0.02, base.shape)
-            pos = r3(pos + np.array([1.3 + 0.9 * k, 2.1 + 0.37 * k, 1.7 + 0.61 * k]))
+            pos = r3(pos + np.array([1.3 + 0.9 * k, 2.1 + 0.37 * k, 1.7 + 0.61 * k]) + frame * np.array([0.217, -0.133, 0.352]))
             resids = []
             last = None
             for (an, rn, ri), p in zip(atoms, pos):
@@ -197,8 +200,8 @@ class C05(Check):
             'are enumerated: an end molecule can only be attached to a species present in the system, the scale '
             'is irrelevant when no map is computed, the subset is irrelevant when nothing is attached. '
             'non-trivial = a file with at least one mapped molecule was written and compared, or the '
-            'failure mode raised. Workflow histories: every sequence of a fixed length over 8 events (attach via '
-            'add_end_molecule / via the .end attribute, detach, compute maps, extrapolate) ending in extrapolate, on one '
+            'failure mode raised. Workflow histories: every sequence of a fixed length over 9 events (attach via '
+            'add_end_molecule / via the .end attribute, detach, compute maps, hand the manager another frame of the system, extrapolate) ending in extrapolate, on one '
             'Manager, with a 2-bit-per-species model deciding what each extrapolate must write')
     technique = ('exhaustive enumeration of system compositions x attachment subsets x box x scale x '
                  'pre-flight failure modes on the real Manager; output re-read by an independent '
@@ -206,8 +209,8 @@ class C05(Check):
                  'exchange-map call on an independently built input molecule')
     level_text = ('every sequence of 1..3 (quick) / 1..5 (thorough) molecules over 6 species (3-atom, 2-residue, '
                   '2-atom and 1-atom references, an unmapped loaded species, solvent), every attachment subset, '
-                  '3 boxes (rectangular, triclinic, hexagonal with a negative component and a non-ASCII title), system built by the constructor or step by step in reverse order, 2 scales and 3 failure modes are executed on the real code; plus every workflow history of '
-                  'length 5 (quick) / 6 (thorough) over 8 manager events; a coverage statement over that finite space')
+                  '4 boxes (rectangular, triclinic, hexagonal with a negative component and a non-ASCII title, lattice vectors in a general orientation), system built by the constructor or step by step in reverse order, 2 scales and 3 failure modes are executed on the real code; plus every workflow history of '
+                  'length 5 (quick) / 6 (thorough) over 9 manager events; a coverage statement over that finite space')
     level_note = ('trusted: the text builders and the 30-line reader in this module, numpy; alignment is not run '
                   '(the maps are built from the placed coordinates); velocities and non-default coordinate '
                   'precision are not covered. KNOWN LIMITATION (outside the premise, informational only): when the two '
@@ -411,7 +414,8 @@ class C05(Check):
         from gaddlemaps.components import System
         events = case['hist']
         world = World(HIST_SEQ, 'rect', seed)
-        state = {'phase': 'init', 'i': 0}
+        worlds = {0: world}
+        state = {'phase': 'init', 'i': 0, 'frame': 0}
 
         def script(kind, a, k):
             assert kind == 'rand' and a == (3,), (kind, a)
@@ -451,6 +455,17 @@ class C05(Check):
                     elif op == 'calc':
                         man.calculate_exchange_maps(scale_factor=0.5)
                         mapped |= attached
+                    elif op == 'frame':
+                        # the manager is given ANOTHER frame of the same system (other title, box, coordinates, residue
+                        # numbers) through its public attribute; attached molecules and maps stay.  From now on "the
+                        # input" is that frame
+                        state['frame'] ^= 1
+                        f = state['frame']
+                        if f not in worlds:
+                            worlds[f] = World(HIST_SEQ, 'tric', seed, frame=f)
+                        world = worlds[f]
+                        man.system = System(MemFile(world.gro, f'frame{f}.gro'),
+                                            *[MemFile(world.itp(s), s + '.itp') for s in world.present if s != 'W'])
                 except Exception as e:
                     R.case(desc, nontrivial=False, cls='history', outcome=f'{op}:raised')
                     R.violation(f'history/{op}/exception', desc, repr(e)[:300])
